@@ -76,6 +76,16 @@ func c09Setup(prm c09Params) func(c *fw.Ctx, name string) explore.Setup {
 						wr.Write(fill(0xAB, n))
 					}
 				}
+				if prm.State == "stale-writer" {
+					// a message is written through a Writer and finished; the application then
+					// writes to the finished writer once more (an error, as documented)
+					if wr, err := conn.Writer(bg, websocket.MessageBinary); err == nil {
+						wr.Write(fill(0xAC, 10))
+						wr.Close()
+						wr.Write(fill(0xAD, 5))
+						wr.Close()
+					}
+				}
 				switch prm.State {
 				case "halfread":
 					// a complete first fragment (fin=0) is available and one byte of it is consumed
@@ -334,7 +344,7 @@ func c09Scenarios(tier string) []scenario {
 	if tier == "thorough" {
 		advs = append(advs, adv{"stallHeader", 2}, adv{"stallHeader", 3}, adv{"stallHeader", 5}, adv{"stallPayload", 1}, adv{"stallPayload", 50}, adv{"stallPayload", 99})
 	}
-	states := []string{"idle", "reader", "halfread", "halfread-reread", "closeread", "closeread-data", "closeread-twice", "peerclosed-closeread", "ctxclosed-closeread", "writer", "writer-big", "readlimit-failed", "ping", "netconn-deadline-moved"}
+	states := []string{"idle", "stale-writer", "reader", "halfread", "halfread-reread", "closeread", "closeread-data", "closeread-twice", "peerclosed-closeread", "ctxclosed-closeread", "writer", "writer-big", "readlimit-failed", "ping", "netconn-deadline-moved"}
 	// a peer that never reads (or reads late) against states that leave bytes in the write buffer
 	for _, k := range []connCfg{{Client: false}, {Client: true}} {
 		sizes := []int{4089, 4090, 4091, 4092}
